@@ -409,7 +409,7 @@ expressions as the literal has results; those expressions are kept in order.  Li
 results are not converted.  (Parameter and result *types* are not part of a lambda: they are
 dropped.) -/
 theorem C25_lambda_shape (f : FuncLit) :
-    (toLambda f = .unchanged ↔ (checkResult f.results).2 ≠ []) ∧
+    (toLambda f = .unchanged ↔ ((checkResult f.results).2 ≠ [] ∨ f.variadic = true)) ∧
     (∀ lhs rhs lp rp, toLambda f = .expr lhs rhs lp rp →
         lhs = lambdaLhs f.params ∧ lhs.length = arity f.params ∧ f.body = [.ret rhs] ∧
         rhs.length = (checkResult f.results).1 ∧ lp = decide (lhs.length > 1) ∧ rp = decide (rhs.length > 1)) ∧
@@ -425,32 +425,42 @@ theorem C25_lambda_shape (f : FuncLit) :
       simp [this]
     | true =>
       have hnil : named = [] := by simpa using hn
-      simp only [Bool.not_true, Bool.false_eq_true, if_false, hnil, ne_eq, not_true_eq_false, iff_false]
-      refine ⟨?_, ?_, ?_⟩
-      · split
-        · split <;> simp
-        · simp
-      · intro lhs rhs lp rp h
-        split at h
-        · rename_i rs hb
+      cases hv : f.variadic with
+      | true => simp [hnil]
+      | false =>
+        simp only [Bool.not_true, Bool.false_eq_true, if_false, hnil, ne_eq, not_true_eq_false,
+          false_or, iff_false]
+        refine ⟨?_, ?_, ?_⟩
+        · split
+          · split <;> simp
+          · simp
+        · intro lhs rhs lp rp h
           split at h
-          · rename_i hlen
-            cases h
-            exact ⟨rfl, lambdaLhs_length _, hb, hlen, rfl, rfl⟩
+          · rename_i rs hb
+            split at h
+            · rename_i hlen
+              cases h
+              exact ⟨rfl, lambdaLhs_length _, hb, hlen, rfl, rfl⟩
+            · cases h
           · cases h
-        · cases h
-      · intro lhs body lp h
-        split at h
-        · split at h
-          · cases h
+        · intro lhs body lp h
+          split at h
+          · split at h
+            · cases h
+            · cases h; exact ⟨rfl, lambdaLhs_length _, rfl, rfl⟩
           · cases h; exact ⟨rfl, lambdaLhs_length _, rfl, rfl⟩
-        · cases h; exact ⟨rfl, lambdaLhs_length _, rfl, rfl⟩
 
 /-- `demo(func(n int) int { return n + 100 })` → `demo(n => n + 100)`;
 `func(int, int) int { return -600 }` → `(_, _) => -600`; named results are left alone. -/
-example : toLambda ⟨[["n"]], [[]], [.ret [7]]⟩ = .expr ["n"] [7] false false := by decide
-example : toLambda ⟨[[], []], [[]], [.ret [7]]⟩ = .expr ["_", "_"] [7] true false := by decide
-example : toLambda ⟨[["a", "b"]], [["v"]], [.ret [1]]⟩ = .unchanged := by decide
-example : toLambda ⟨[["a", "b"]], [[]], [.ret [1, 2]]⟩ = .blockL ["a", "b"] [.ret [1, 2]] true := by decide
+example : toLambda ⟨[["n"]], false, [[]], [.ret [7]]⟩ = .expr ["n"] [7] false false := by decide
+example : toLambda ⟨[[], []], false, [[]], [.ret [7]]⟩ = .expr ["_", "_"] [7] true false := by decide
+example : toLambda ⟨[["a", "b"]], false, [["v"]], [.ret [1]]⟩ = .unchanged := by decide
+example : toLambda ⟨[["a", "b"]], false, [[]], [.ret [1, 2]]⟩ = .blockL ["a", "b"] [.ret [1, 2]] true := by decide
+example : toLambda ⟨[["xs"]], true, [[]], [.ret [1]]⟩ = .unchanged := by decide
+
+/-- `strings.Map(f, s)` keeps its name (`map` is a keyword), `strings.ToUpper` is lower-cased. -/
+theorem C25_lowercase_keyword_guard :
+    lowerCall "Map" = "Map" ∧ lowerCall "Range" = "Range" ∧ lowerCall "ToUpper" = "toUpper" ∧
+    ∀ k ∈ Gen.keywords, lowerCall (capFirst k) = capFirst k := by decide
 
 end GopModel.GopStyle
